@@ -10,14 +10,14 @@ open Goyang.Gen.Consts Goyang.Model.Number
 /-- `AbsMinInt64`, `MaxInt64`, `MinInt64` are the 64-bit bounds of `Goyang.Model.Number`
 (`H = 2^63`, `W = 2^64`). -/
 theorem number_limits_tied :
-    (H : Int) = «yang.AbsMinInt64» ∧ (H : Int) - 1 = «yang.MaxInt64» ∧ -(H : Int) = «yang.MinInt64» ∧
-    (W : Int) = 2 * «yang.AbsMinInt64» := by
+    (H : Int) = «yang:AbsMinInt64» ∧ (H : Int) - 1 = «yang:MaxInt64» ∧ -(H : Int) = «yang:MinInt64» ∧
+    (W : Int) = 2 * «yang:AbsMinInt64» := by
   decide
 
 /-- `MaxFractionDigits` is the 18 the model's scale arithmetic and `space18` use. -/
 theorem fraction_digits_tied :
-    «yang.MaxFractionDigits» = 18 ∧ space18 = «yang.space18.bytes» ∧
-    («yang.space18.bytes».length : Int) = «yang.MaxFractionDigits» := by
+    «yang:MaxFractionDigits» = 18 ∧ space18 = «yang:space18.bytes» ∧
+    («yang:space18.bytes».length : Int) = «yang:MaxFractionDigits» := by
   decide
 
 end Goyang.Props.ConstsC15
